@@ -96,6 +96,7 @@ sx_enum! {
         Bulk { a: u8, n: u32, p: u64 },
         BulkDestroy { a: u8, stride: u32, phase: u32 },
         Spawn { c: u64 },
+        CloneFrom { n: u8 },
     }
 }
 
@@ -135,6 +136,7 @@ impl Op {
             Op::Bulk { .. } => "Bulk",
             Op::BulkDestroy { .. } => "BulkDestroy",
             Op::Spawn { .. } => "Spawn",
+            Op::CloneFrom { .. } => "CloneFrom",
         }
     }
     pub fn tag(&self) -> u64 {
@@ -161,6 +163,7 @@ impl Op {
             Op::Bulk { .. } => 20,
             Op::BulkDestroy { .. } => 21,
             Op::Spawn { .. } => 22,
+            Op::CloneFrom { .. } => 23,
         }
     }
 }
